@@ -17,6 +17,7 @@ CONSTANTS
   Tags = {"A", "B"}
   EmitEdges = TRUE
   WithFaults = %s
+  TrackPeak = %s
 VIEW View
 ACTION_CONSTRAINT Emit
 CHECK_DEADLOCK FALSE
@@ -34,8 +35,8 @@ def prefer(e):
     """Among model edges that differ only in the moved-from value, plan with the one the
     current implementation takes (constructor: source empty; assignment: swap)."""
     a = e["a"]
-    f = e["f"].split(".")
-    t = e["t"].split(".")
+    f = [x.split("~")[0] for x in e["f"].split(".")]        # (without the peak history suffix)
+    t = [x.split("~")[0] for x in e["t"].split(".")]
     if a["n"] == "moveconstruct":
         return 0 if t[a["b"] - 1].startswith("0-") else 1
     if a["n"] == "moveassign":
@@ -47,10 +48,10 @@ def prefer(e):
     return 0
 
 
-def make_schedule(nslots, faults, path, maxlen=28):
+def make_schedule(nslots, faults, path, maxlen=28, peak=False):
     slots = ", ".join(str(i) for i in range(1, nslots + 1))
-    edges, stats = schedules.emit_edges("MC_BufferPool", CFG % (slots, "TRUE" if faults else "FALSE"),
-                                        "buf%d%s" % (nslots, "f" if faults else ""))
+    edges, stats = schedules.emit_edges("MC_BufferPool", CFG % (slots, "TRUE" if faults else "FALSE", "TRUE" if peak else "FALSE"),
+                                        "buf%d%s%s" % (nslots, "f" if faults else "", "p" if peak else ""))
     init = "D." * nslots
     walks, total = schedules.covering_walks(edges, init, lambda e: op_line(e["a"]), prefer, maxlen)
     with open(path, "w") as f:
@@ -60,6 +61,37 @@ def make_schedule(nslots, faults, path, maxlen=28):
                 f.write(op_line(e["a"]) + "\n")
     return {"model_edges": len(edges), "distinct_state_op_pairs": total, "schedules": len(walks),
             "steps": sum(len(w) for w in walks), "model_states": stats["distinct"]}
+
+
+def stale_schedule(path):
+    """Directed three-step histories the abstract state graph cannot tell apart from shorter ones: an object is given
+    a value, then emptied / shrunk / moved from in every way (so that its in-object array or its old block still holds
+    the earlier units), then refilled in every way - and observed.  Same line format as the TLC-generated schedules."""
+    n = 0
+    with open(path, "w") as f:
+        for c1 in range(6):
+            for t1 in "AB":
+                agers = [["moveconstruct 2 1 0 -"], ["construct 2 0 1 A", "moveassign 2 1 0 -"], ["construct 2 0 5 A", "moveassign 2 1 0 -"],
+                         ["clear 1 0 0 -"], ["allocate 1 0 0 A"], ["allocate 1 0 1 A"], ["allocatefill 1 0 1 B"], ["allocatefill 1 0 0 A"],
+                         ["construct 2 0 0 A", "copyassign 1 2 0 -"], ["construct 2 0 1 B", "copyassign 1 2 0 -"], ["moveassign 1 1 0 -"]]
+                for ag in agers:
+                    for c2 in range(6):
+                        refills = ["allocatefill 1 0 %d A" % c2, "allocatefill 1 0 %d B" % c2, "allocate 1 0 %d A" % c2]
+                        if c2 in (0, 2, 4):
+                            refills += ["copyassign 1 2 0 -", "moveassign 1 2 0 -"]
+                        for rf in refills:
+                            lines = ["reset", "construct 1 0 %d %s" % (c1, t1)] + ag
+                            if rf.endswith("2 0 -"):
+                                if any(l.startswith(("construct 2", "moveconstruct 2")) for l in ag):
+                                    lines += ["destroy 2 0 0 -"]
+                                lines += ["construct 2 0 %d %s" % (c2, "B" if t1 == "A" else "A")]
+                            lines += [rf, "observe 1 1 0 -"]
+                            if any(l.startswith(("construct 2", "moveconstruct 2")) for l in lines):
+                                lines += ["observe 1 2 0 -", "observe 2 1 0 -"]
+                            lines += ["copyconstruct 3 1 0 -", "observe 3 1 0 -"] if False else []
+                            f.write("\n".join(lines) + "\n")
+                            n += 1
+    return n
 
 
 class BufferCheck(Check):
@@ -99,8 +131,13 @@ class BufferCheck(Check):
         except Exception:
             return (rej.get("event") or "")[:300]
 
+    gen_info_peak = None
+
     def extra_coverage(self, tier, agg):
-        return {"schedule_generation": self.gen_info}
+        r = {"schedule_generation": self.gen_info}
+        if self.gen_info_peak:
+            r["schedule_generation_with_peak_history"] = self.gen_info_peak
+        return r
 
 
 class C05(BufferCheck):
@@ -109,12 +146,15 @@ class C05(BufferCheck):
                   "every explored (state, operation) edge is executed on real buffers of all four element types and every recorded "
                   "post-state of every live object is decided by TLC against the pool specification: histories, not single calls")
     rule = ("operation schedules covering every edge of the TLC state graph of MC_BufferPool (shortest-path navigation, <= 28 steps "
-            "each) x 4 element types, plus seeded random walks of 30 steps on 3 slots; after every step the projection of all live "
+            "each) x 4 element types, the same for the 2-slot model with the peak-length history variable in its state identity (2,704 states, "
+            "134,786 (state, operation) pairs, one element type per schedule in turn), directed three-step histories (value, then emptied / shrunk / moved from in 11 ways, then refilled in 5 ways "
+            "incl. a zero fill, then observed), plus seeded random walks of 30 steps on 3 slots; after every step the projection of all live "
             "objects (units, size, storage class/owning block, terminator, live blocks, bad frees) is validated")
     exhaustive_note = "every (state, operation) edge of the 3-slot pool model is executed for each of the four element types"
 
     def models(self, tier):
         return [("MC_BufferPool", "MC_BufferPool_2" if tier == "quick" else "MC_BufferPool_3"),
+                ("MC_BufferPool", "MC_BufferPool_2p"),
                 ("MC_BufferImpl", "MC_BufferImpl" if tier == "quick" else "MC_BufferImpl_full")]
 
     def jobs(self, tier, seed):
@@ -125,6 +165,17 @@ class C05(BufferCheck):
         for i in range(n):
             args = ["--schedule", sched, "--shard", "%d/%d" % (i, n)]
             J.append(vlib.Job("c05-sched-%d" % i, e, args, "TraceBuffer"))
+        # histories: the same model with the peak-length history variable in the state identity (every operation in every
+        # (value, longest value held before) combination), each schedule on one element type in turn
+        hp = os.path.join(vlib.OUT, "sched", "buffer-peak-%d.txt" % os.getpid())
+        self.gen_info_peak = make_schedule(2, False, hp, peak=True)
+        nh = 8 if tier == "quick" else 16
+        for i in range(nh):
+            J.append(vlib.Job("c05-peak-%d" % i, e, ["--schedule", hp, "--rotate", "--shard", "%d/%d" % (i, nh)], "TraceBuffer"))
+        stale = os.path.join(vlib.OUT, "sched", "buffer-stale-%d.txt" % os.getpid())
+        stale_schedule(stale)
+        for i in range(2 if tier == "quick" else 4):
+            J.append(vlib.Job("c05-stale-%d" % i, e, ["--schedule", stale, "--shard", "%d/%d" % (i, 2 if tier == "quick" else 4)], "TraceBuffer"))
         nr = 4 if tier == "quick" else 16
         for i in range(nr):
             args = ["--random", "400" if tier == "quick" else "4000", "--seed", str(seed * 100 + i)]
